@@ -34,14 +34,16 @@ def expand_atoms(residues):
     return out
 
 
-def write_gro(path, title, residues, coordseed, vel, box=(3.0, 4.0, 5.0), atomid_start=1):
+def write_gro(path, title, residues, coordseed, vel, box=(3.0, 4.0, 5.0), atomid_start=1, wide=False):
     atoms = expand_atoms(residues)
     pos, vels = atom_coords(coordseed, len(atoms), vel)
     lines = [title, "%5d" % len(atoms)]
     for i, (resid, resname, name) in enumerate(atoms):
         aid = (atomid_start + i) % 100000
-        s = "%5d%-5s%5s%5d%8.3f%8.3f%8.3f" % (resid % 100000, resname, name, aid, *pos[i])
-        if vel:
+        s = "%5d%-5s%5s%5d" % (resid % 100000, resname, name, aid)
+        # wide: the high-precision layout %16.11f, positions only — 68 columns, as long as %8.3f with velocities
+        s += ("%16.11f%16.11f%16.11f" if wide else "%8.3f%8.3f%8.3f") % tuple(pos[i])
+        if vel and not wide:
             s += "%8.4f%8.4f%8.4f" % tuple(vels[i])
         lines.append(s)
     lines.append(("%10.5f" * len(box)) % tuple(box))     # 3 numbers, or 9 in GROMACS order for a triclinic cell
@@ -50,7 +52,7 @@ def write_gro(path, title, residues, coordseed, vel, box=(3.0, 4.0, 5.0), atomid
     return len(atoms)
 
 
-def parse_gro_raw(path):
+def parse_gro_raw(path, width=8):
     """independent parse of the raw bytes: title (with terminator), natoms, atom tuples, box, sizes"""
     data = open(path, "rb").read().decode("latin-1")
     lines = data.split("\n")
@@ -58,8 +60,8 @@ def parse_gro_raw(path):
     n = int(lines[1])
     atoms = []
     for l in lines[2:2 + n]:
-        nf = (len(l) - 20) // 8
-        vals = [float(l[20 + 8 * k:28 + 8 * k]) for k in range(nf)]
+        nf = (len(l) - 20) // width
+        vals = [float(l[20 + width * k:20 + width + width * k]) for k in range(nf)]
         atoms.append((int(l[0:5]), l[5:10].strip(), l[10:15].strip(), int(l[15:20]),
                       tuple(vals[:3]), tuple(vals[3:6]) if nf == 6 else None))
     box = [float(x) for x in lines[2 + n].split()]
